@@ -184,13 +184,13 @@ def c01(res, tier, seed):
     res.cov["transitions"] += states
     res.cov["traces_validated_against_impl"] += len(records) - len(bad)
     res.cov["parts"]["compile_rejected_short_base64"] = rejected_compiles
-    for b in bad[:10]:
+    for b in bad[:200]:
         gi, bi, sc = owners[b]
         rp = yv.save_replay("C01", "case_%d_%d" % (gi, bi), {"src": groups[gi]["src"], "buf_hex": groups[gi]["bufs"][bi].hex(), "observed": sc,
                                                              "record": records[b]})
         res.violation("reported matches of `%s` on %s are not the documented occurrences: %s" % (groups[gi]["src"][:200], groups[gi]["bufs"][bi].hex()[:120], sc), rp)
-    for b in bad[10:]:
-        res.violations.append(("(further rejected case)", "-"))
+    if len(bad) > 200:
+        res.cov["parts"]["further_rejected_cases"] = len(bad) - 200
     for i in range(min(4, len(records))):
         res.sample({"src": groups[owners[i][0]]["src"], "buf_hex": groups[owners[i][0]]["bufs"][owners[i][1]].hex(), "obs": owners[i][2]})
     res.cov["rule"] = ("random text strings (length 1-40; small alphabet incl. 0x00/0x20/alnum/xor pairs, and all 256 values) x legal modifier sets "
